@@ -146,6 +146,24 @@ def whole_word_map(fn):
         if o != 'return':
             continue
         eqs = [c[3][1] for c, pol, _ in st.conds if pol and c[0] == 'cmp' and c[1] == '==' and c[2] == N(p) and c[3][0] == 'const']
+        # table-driven: `if word in KEYS: return VALUES[KEYS.index(word)]`
+        tabs = [c[3] for c, pol, _ in st.conds if pol and c[0] == 'cmp' and c[1] == 'in' and c[2] == N(p)]
+        if tabs and not eqs:
+            keys = tabs[0]
+            if keys[0] == 'const' and isinstance(keys[1], str) and len(keys[1]) > 1:
+                from .core import StructuralViolation
+                raise StructuralViolation('R-codec', '%s:%s %s' % (getattr(getattr(fn, '_pymodule', None), 'rel', 'depccg/utils.py'), fn.lineno, fn.name), '%s:substring-test' % fn.name,
+                                          '%s tests `%s in %r`, a substring test on a text: every run of these characters (%r, %r) is taken for the single token and rewritten as one, '
+                                          'so the word read back is not the word written' % (fn.name, p, keys[1], keys[1][:2], keys[1][1:3]))
+            r = st.ret
+            if keys[0] in ('tuple', 'list') and all(k[0] == 'const' for k in keys[1]) and r is not None and r[0] == 'sub' \
+                    and r[2] == ('call', A(keys, 'index'), (N(p),), ()):
+                vals = r[1]
+                seq = list(vals[1]) if vals[0] == 'const' and isinstance(vals[1], str) else ([v[1] for v in vals[1]] if vals[0] in ('tuple', 'list') and all(v[0] == 'const' for v in vals[1]) else None)
+                if seq is not None and len(seq) == len(keys[1]):
+                    for k, v in zip(keys[1], seq):
+                        whole[k[1]] = v
+                    continue
         if eqs:
             if st.ret[0] != 'const':
                 raise AnalysisError('%s: non-constant result for %r' % (fn.name, eqs[0]))
